@@ -57,6 +57,12 @@ Theorem C10_table_checks :
 Proof. exact table_checks. Qed.
 Print Assumptions C10_table_checks.
 
+(* copy on duplicate, read off the templates: `:` pushes one deep_copy next to the original,
+   `D` two, `Ḃ` one, `¾` a copy of the global array; none pushes the same name bare twice *)
+Theorem C10_dup_templates_copy : dup_templates_ok dup_templates = true.
+Proof. exact dup_templates_copy. Qed.
+Print Assumptions C10_dup_templates_copy.
+
 (* after `:` (dup st r = the state with deep_copy(top) pushed, and the new reference), any
    sequence of non-mutating operations - every observation of C13 on either reference or
    on any other, reads, further duplications - leaves both references denoting what the
